@@ -719,8 +719,12 @@ pub trait AutoMerge: RemoteSyncHandler {
     async fn rollback_rewind(
         &self,
         log_type: &EventLogType,
-        records: Vec<EventRecord>,
+        mut records: Vec<EventRecord>,
     ) -> Result<(), <Self as RemoteSyncHandler>::Error> {
+        // Rewind yields the pruned records most recent first
+        // so restore the order in which they were appended
+        records.reverse();
+
         let account = self.account();
         let account = account.lock().await;
         match log_type {
